@@ -31,6 +31,7 @@ type worker struct {
 	done    bool
 	waitMu  any    // mutex it wants to acquire (parked in Lock hook)
 	waitKnd string // "lock" | "rlock"
+	await   int    // 1 + the flag this worker waits for before its first operation (0: none); see "await"/"signal" below
 }
 
 type scheduler struct {
@@ -41,6 +42,7 @@ type scheduler struct {
 	trace   []string
 	run     func(w *worker, op schedOp) string // executes one operation on the object under test, returns the rendered result
 	quiet   bool                               // hooks pass through (used for harness-side peeks)
+	flags   map[int]bool                       // harness-level ordering between workers: pseudo-operations `signal n` / leading `await n`
 }
 
 func (s *scheduler) emit(format string, a ...interface{}) {
@@ -113,6 +115,9 @@ func (s *scheduler) enabled(w *worker) bool {
 	if w.done {
 		return false
 	}
+	if w.await > 0 && !s.flags[w.await-1] {
+		return false
+	}
 	if w.waitMu != nil {
 		st := s.mu(w.waitMu)
 		if w.waitKnd == "lock" {
@@ -128,6 +133,12 @@ func (s *scheduler) workerMain(w *worker) {
 	s.cur = w
 	lastTry := false
 	for _, op := range w.ops {
+		if op.name == "signal" {
+			// pseudo-operation (no event, no scheduling point): lets a program order one worker's start after another worker's operation
+			// has RETURNED - e.g. calls on a key only after its ClearKey is over (the property's proviso on ClearKey)
+			s.flags[op.args[0]] = true
+			continue
+		}
 		if strings.HasSuffix(op.name, "?") {
 			// conditional release: only when the preceding try on this worker succeeded
 			if !lastTry {
@@ -170,6 +181,12 @@ func joinInts(xs []int) string {
 func (s *scheduler) execute(choose func(enabled []int, step int) int, maxSteps int) (deadlock bool) {
 	s.parked = make(chan struct{})
 	s.mus = map[any]*muState{}
+	s.flags = map[int]bool{}
+	for _, w := range s.workers {
+		if len(w.ops) > 0 && w.ops[0].name == "await" {
+			w.await, w.ops = w.ops[0].args[0]+1, w.ops[1:]
+		}
+	}
 	s.install()
 	defer s.uninstall()
 	for _, w := range s.workers {
